@@ -511,8 +511,25 @@ func streamCase1(rt *rapid.T, p, mode, part string) {
 		}
 		perm = rapid.Permutation(idx).Draw(rt, "responseOrder")
 	}
+	// a boltv2 connection also takes bolt v1 frames (mixed-version deployments; the codec hands them to the v1 decoder): a
+	// third of the boltv2 streams carry v1 frames among the v2 ones - v1 frames are shorter (a body-less v1 response has
+	// 20 bytes, less than the smallest v2 frame)
+	var genV1 *rapid.Generator[*codec.Frame]
+	if p == "boltv2" && rapid.IntRange(0, 2).Draw(rt, "mixedVersions") == 0 {
+		genV1 = codec.GenFrame("bolt", false)
+		if mode == "client" {
+			genV1 = genV1.Filter(func(f *codec.Frame) bool {
+				return f.Kind == "response" || f.Kind == "hb-response" || f.Kind == "hb-request"
+			})
+		}
+	}
+	v1Frames := 0
 	for j := 0; j < n; j++ {
 		f := gen.Draw(rt, "frame")
+		if genV1 != nil && rapid.Bool().Draw(rt, "v1Frame") {
+			f = genV1.Draw(rt, "frameV1")
+			v1Frames++
+		}
 		b := f.Bytes
 		expectRecv[j] = -1
 		if mode == "client" {
@@ -538,6 +555,9 @@ func streamCase1(rt *rapid.T, p, mode, part string) {
 	}
 	segMode, cutSets := genCutSets(rt, total, bounds)
 	classes := []string{"proto:" + p, "seg:" + segMode, fmt.Sprintf("frames:%d", n)}
+	if v1Frames > 0 {
+		classes = append(classes, "boltv2-connection-with-bolt-v1-frames")
+	}
 	excluded := 0
 	if p == "dubbo-thrift" && codec.Listed(sigThriftWindow) && rapid.IntRange(0, 7).Draw(rt, "keepKnownWindow") != 0 {
 		for i := range cutSets {
